@@ -1,3 +1,40 @@
-From MW Require Import Num.
-Theorem placeholder : True. Proof. exact I. Qed.
-Print Assumptions placeholder.
+(*  C14 — A Thompson binarizer is applied to every reward exactly once.
+   
+    PROVED for every binarizer function (also ones that are not idempotent on {0,1}), every batch:
+     * training a Thompson policy that has a binarizer IS training the policy without binarizer on the rewards
+       converted by binarizer(decision, reward): fit and partial_fit commute with the conversion, the states are
+       equal up to the binarizer field itself;
+     * under Radius / KNearest / LSHNearest the history stores the converted rewards and marks the policy
+       (is_contextual_binarized), and a marked policy converts nothing: the copies re-trained at prediction time
+       see every reward converted exactly once.
+    ..._partial: TreeBandit re-applies the binarizer in its leaf policies (finding D6, refuted on the code);
+    Clusters by correspondence and the pre-converted twin relation. *)
+From Coq Require Import List ZArith Bool Arith QArith Qcanon Permutation.
+From MW Require Import Num Assoc AssocFacts Rng Par CF CFInv CFClean CFForget CFSpec Matrix Lin Warm WarmInv Nbr NbrFacts NbrIndep LshFacts Clu Tree CellFacts Mab FacadeCF FacadeArms MoreFacts NumLaws CFAlg Sim Extra QcInst.
+Import ListNotations.
+
+Theorem C14_binarizer_commutes_with_training :
+  forall (R A : Type) (N : Num R) (aeqb : A -> A -> bool) (s : (@cf R A)) (ds : list A) (rs : list R),
+  c_kind s = KThompson ->
+  cf_fit N aeqb s ds rs = set_binz (cf_fit N aeqb (set_binz s None) ds (binarize s ds rs)) (c_binz s) /\
+  cf_partial_fit N aeqb s ds rs =
+  set_binz (cf_partial_fit N aeqb (set_binz s None) ds (binarize s ds rs)) (c_binz s).
+Proof. exact @thompson_binarize_once. Qed.
+Print Assumptions C14_binarizer_commutes_with_training.
+
+Theorem C14_marked_policy_converts_nothing :
+  forall (R A : Type) (s : (@cf R A)) (ds : list A) (rs : list R), c_ctxbin s = true -> binarize s ds rs = rs.
+Proof. exact @binarize_marked_is_identity. Qed.
+Print Assumptions C14_marked_policy_converts_nothing.
+
+Theorem C14_neighbourhood_history_stores_converted_rewards_partial :
+  forall (R A G : Type) (l : (@lp R A G)) (ds : list A) (rs : list R),
+  lp_is_ts_binz l = true ->
+  match l with
+  | LCf c => lp_binarize l ds rs = (LCf (set_ctxbin c true), binarize (set_ctxbin c false) ds rs)
+  | LLin _ => True
+  end.
+Proof. exact @neighbourhood_stores_converted_rewards. Qed.
+Print Assumptions C14_neighbourhood_history_stores_converted_rewards_partial.
+
+
